@@ -15,9 +15,9 @@ macro_rules! props {
             let mut d = match id { $($id => Some($m::def()),)* _ => None }?;
             // quick tier: fixed work, sized so that a check takes roughly 10-40 s on 16 cores
             let mult: u64 = match id {
-                "C01" => 8, "C02" => 6, "C03" => 4, "C04" => 1, "C05" => 5, "C06" => 4, "C07" => 10, "C08" => 2,
-                "C09" => 1, "C10" => 5, "C11" => 8, "C12" => 6, "C13" => 10, "C14" => 1, "C15" => 8, "C16" => 5,
-                "C17" => 5, "C18" => 10, "C19" => 5, "C20" => 2, _ => 1,
+                "C01" => 20, "C02" => 12, "C03" => 8, "C04" => 3, "C05" => 8, "C06" => 8, "C07" => 30, "C08" => 6,
+                "C09" => 2, "C10" => 10, "C11" => 12, "C12" => 8, "C13" => 30, "C14" => 2, "C15" => 16, "C16" => 20,
+                "C17" => 20, "C18" => 30, "C19" => 20, "C20" => 4, _ => 1,
             };
             for s in d.subs.iter_mut() {
                 if let crate::runner::Kind::Tape { quick, thorough, .. } = &mut s.kind {
